@@ -1639,5 +1639,68 @@ seed("c03-starttls-keeps-session-pointer", "C03", "R-tls-success-effects", "conn
 	}
 	c.helo = \"\"""", "the EHLO after STARTTLS is taken for a repeated greeting: no session sees the TLS state")
 
+# ---- batch 37 (2026-09-28) ----
+seed("c08-close-logs-out-outside-lock", "C08", "R-logout-once-under-lock", "conn.go",
+"""	if c.session != nil {
+		c.session.Logout()
+		c.session = nil
+	}
+
+	c.closed = true
+	return c.conn.Close()""", """	session := c.session
+	c.closed = true
+	c.locker.Unlock()
+	if session != nil {
+		session.Logout()
+	}
+	c.locker.Lock()
+	c.session = nil
+	return c.conn.Close()""", "two overlapping Close calls both log the session out")
+seed("c08-giveup-closes-raw-socket", "C08", "R-socket-close-owner", "conn.go",
+"""		c.writeResponse(500, EnhancedCode{5, 5, 1}, "Too many errors. Quiting now")
+		c.Close()""", """		c.writeResponse(500, EnhancedCode{5, 5, 1}, "Too many errors. Quiting now")
+		c.conn.Close()""", "the closed flag is never set: buffered commands are still dispatched")
+for pid in ("C18", "C16"):
+    seed(pid.lower()+"-refused-data-drops-recipients", pid, "R-rcpts-lifecycle" if pid == "C18" else "R-recipients-as-accepted", "client.go",
+"""	_, _, err := c.cmd(354, "DATA")
+	if err != nil {
+		return nil, err
+	}
+	return &dataCloser{c: c, WriteCloser: c.text.DotWriter()}, nil""", """	_, _, err := c.cmd(354, "DATA")
+	if err != nil {
+		c.rcpts = nil
+		return nil, err
+	}
+	return &dataCloser{c: c, WriteCloser: c.text.DotWriter()}, nil""", "a retried DATA is answered once per recipient but Close waits for none")
+for pid in ("C19", "C09"):
+    seed(pid.lower()+"-auth-without-commaok", pid, "R-typeassert-guarded", "conn.go",
+"""	if authSession, ok := c.Session().(AuthSession); ok {
+		return authSession.Auth(mech)
+	}
+	return nil, ErrAuthUnknownMechanism""", """	authSession, _ := c.Session().(AuthSession)
+	return authSession.Auth(mech)""", "AUTH on a backend without AuthSession panics (nil interface)")
+for pid in ("C09", "C12"):
+    seed(pid.lower()+"-tls-state-true-without-tls", pid, "R-authallowed-def", "conn.go",
+"""	tc, ok := c.conn.(*tls.Conn)
+	if !ok {
+		return
+	}
+	return tc.ConnectionState(), true
+}
+
+func (c *Conn) Hostname""", """	tc, ok := c.conn.(*tls.Conn)
+	if !ok {
+		return state, c.server.TLSConfig == nil
+	}
+	return tc.ConnectionState(), true
+}
+
+func (c *Conn) Hostname""", "a plaintext connection of a server without TLSConfig passes for TLS")
+seed("c18-newclientlmtp-forgets-flag", "C18", "R-lmtp-flag", "client.go",
+"""	c := NewClient(conn)
+	c.lmtp = true
+	return c""", """	c := NewClient(conn)
+	return c""", "an LMTP exchange is read as SMTP: one reply per message")
+
 json.dump(S, open(os.path.join(os.path.dirname(os.path.abspath(__file__)), "bank.json"), "w"), indent=1)
 print(len(S), "seeds")
